@@ -139,6 +139,7 @@ type binding struct {
 	dml      map[Node]*selInfo // synthetic select scope of INSERT / UPDATE / DELETE
 	unsupp   []string
 	harness  bool // temporary tables of the shortest-path harness are visible
+	keyLocal map[*selInfo]int // exprKey: SELECT scopes that lie inside the expression being keyed
 }
 
 type scope struct {
@@ -282,13 +283,19 @@ func (b *binding) bindQuery(q *Query, parent *scope) *queryInfo {
 	for _, o := range q.OrderBy {
 		idx := -1
 		e := stripParen(o.Expr)
-		if lit, ok := e.(*Literal); ok && lit.Kind == "int" {
-			n, _ := strconv.Atoi(lit.Text)
-			if n < 1 || n > len(qi.cols) {
+		if n, isInt, isConst := sortConstant(o.Expr); isConst {
+			// findTargetlistEntrySQL92: a bare constant is an output column position, or an error
+			switch {
+			case !isInt:
+				b.issue("undefined-column", o.Pos, true, "non-integer constant in ORDER BY")
+				qi.orderIdx = append(qi.orderIdx, 0)
+				continue
+			case n < 1 || n > len(qi.cols):
 				b.issue("undefined-column", o.Pos, true, "ORDER BY position %d is not in select list", n)
-			} else {
-				idx = n - 1
+				qi.orderIdx = append(qi.orderIdx, 0)
+				continue
 			}
+			idx = n - 1
 		} else if cr, ok := e.(*ColumnRef); ok && len(cr.Parts) == 1 {
 			// an output column name takes precedence
 			matches := 0
@@ -417,6 +424,60 @@ func (b *binding) bindWith(w *With, sc *scope) {
 		qi := b.bindQuery(c.Query, sc)
 		ci.cols, ci.types = applyColumnAliases(b, c, qi.cols, qi.types)
 		sc.ctes = append(sc.ctes, ci)
+	}
+}
+
+// sortConstant recognises what PostgreSQL's grammar hands to ORDER BY / GROUP BY as a bare constant
+// (A_Const): a literal, possibly parenthesised (parentheses leave no node behind), possibly negated
+// (doNegate folds '-' into integer and float constants; unary '+' is an operator expression).
+func sortConstant(e Expr) (n int, isInt, isConst bool) {
+	neg := false
+	for {
+		switch t := e.(type) {
+		case *Paren:
+			e = t.X
+			continue
+		case *Unary:
+			if t.Op == "-" {
+				if _, _, inner := sortConstant(t.X); inner {
+					if lit, ok := stripParenUnaryMinus(t.X).(*Literal); ok && (lit.Kind == "int" || lit.Kind == "numeric") {
+						neg = !neg
+						e = t.X
+						continue
+					}
+				}
+			}
+			return 0, false, false
+		case *Literal:
+			if t.Kind == "int" {
+				v, err := strconv.Atoi(strings.ReplaceAll(t.Text, "_", ""))
+				if err != nil {
+					return 0, false, true // beyond int4: a Float constant
+				}
+				if neg {
+					v = -v
+				}
+				return v, true, true
+			}
+			return 0, false, true
+		}
+		return 0, false, false
+	}
+}
+
+func stripParenUnaryMinus(e Expr) Expr {
+	for {
+		switch t := e.(type) {
+		case *Paren:
+			e = t.X
+		case *Unary:
+			if t.Op != "-" {
+				return e
+			}
+			e = t.X
+		default:
+			return e
+		}
 	}
 }
 
@@ -611,13 +672,20 @@ func (b *binding) bindSelect(s *Select, parent *scope, owner *Query) *scope {
 	// GROUP BY
 	for _, g := range s.GroupBy {
 		ge := stripParen(g)
-		if lit, ok := ge.(*Literal); ok && lit.Kind == "int" {
-			n, _ := strconv.Atoi(lit.Text)
-			if n < 1 || n > len(si.out) {
-				b.issue("undefined-column", lit.Pos, true, "GROUP BY position %d is not in select list", n)
+		if n, isInt, isConst := sortConstant(g); isConst {
+			pos := 0
+			if lit, ok := ge.(*Literal); ok {
+				pos = lit.Pos
+			}
+			if !isInt {
+				b.issue("undefined-column", pos, true, "non-integer constant in GROUP BY")
 				continue
 			}
-			si.groupBy = append(si.groupBy, &outRef{Pos: lit.Pos, Idx: n - 1})
+			if n < 1 || n > len(si.out) {
+				b.issue("undefined-column", pos, true, "GROUP BY position %d is not in select list", n)
+				continue
+			}
+			si.groupBy = append(si.groupBy, &outRef{Pos: pos, Idx: n - 1})
 			continue
 		}
 		if cr, ok := ge.(*ColumnRef); ok && len(cr.Parts) == 1 {
@@ -1131,11 +1199,23 @@ func containsAggregate(e Expr) bool {
 // exprKey is a structural key for expression equality (GROUP BY matching), ignoring parentheses.
 func (b *binding) exprKey(e Expr) string {
 	var sb strings.Builder
+	b.keyLocal = map[*selInfo]int{}
 	b.writeExprKey(&sb, e)
+	b.keyLocal = nil
 	return sb.String()
 }
 
 func (b *binding) writeExprKey(sb *strings.Builder, n Node) {
+	if sel, ok := n.(*Select); ok && b.keyLocal != nil {
+		// a SELECT scope inside the expression: references into it are keyed by the scope's ordinal within
+		// the expression, so that two separately written but identical sub-selects have equal keys (as
+		// PostgreSQL's equal() on SubLink nodes has it)
+		if si := b.sel[sel]; si != nil {
+			if _, seen := b.keyLocal[si]; !seen {
+				b.keyLocal[si] = len(b.keyLocal)
+			}
+		}
+	}
 	switch t := n.(type) {
 	case nil:
 		sb.WriteString("nil")
@@ -1145,7 +1225,11 @@ func (b *binding) writeExprKey(sb *strings.Builder, n Node) {
 		fmt.Fprintf(sb, "L%s:%q:%v", t.Kind, t.Text, t.Bool)
 	case *ColumnRef:
 		if res, ok := b.cols[t]; ok {
-			fmt.Fprintf(sb, "C%p.%d.%d", b.colScope[t], res.rte, res.col)
+			if idx, local := b.keyLocal[b.colScope[t]]; local {
+				fmt.Fprintf(sb, "Clocal%d.%d.%d", idx, res.rte, res.col)
+			} else {
+				fmt.Fprintf(sb, "C%p.%d.%d", b.colScope[t], res.rte, res.col)
+			}
 		} else {
 			fmt.Fprintf(sb, "C%s", strings.Join(t.Parts, "."))
 		}
